@@ -642,6 +642,14 @@ Theorem C16_pair_drops_def :
 Proof. reflexivity. Qed.
 Print Assumptions C16_pair_drops_def.
 
+(* the rejected ARGUMENTS of the overflowing insert: value first, then key (two
+   parameters are destroyed in reverse declaration order) *)
+Theorem C16_arg_drops_def :
+  forall (K V Q T : Type) (E : env K V Q T) (p : K * V),
+  arg_drops E p = ev_drops (idV E (snd p) ++ idK E (fst p)).
+Proof. reflexivity. Qed.
+Print Assumptions C16_arg_drops_def.
+
 Theorem C16_ext_evs_def :
   forall (K V Q T : Type) (E : env K V Q T) (ck : K -> N) (l : list (K * V)),
   ext_evs E ck l [] = [] /\
@@ -685,7 +693,7 @@ Theorem C16_extend_loop_exact_log :
               find_idx ck (ck (fst x)) (Spec.elems (self w')) = None /\
               length (Spec.elems (self w')) = cap (self w) /\
               log w' = log w ++ ext_evs E ck (Spec.elems (self w)) pre ++ [EvCall 1] ++
-                                pair_drops E x ++ flat_map (pair_drops E) post)
+                                arg_drops E x ++ flat_map (pair_drops E) post)
          w.
 Proof. exact (@extend_loop_overflow). Qed.
 Print Assumptions C16_extend_loop_exact_log.
@@ -735,7 +743,7 @@ Proof. vm_compute. split; reflexivity. Qed.
 
 (* an overflow midway: the same start extended with classes 6, 7, 8, 5.  Item 3
    (class 8) does not fit.  At the panic the container holds exactly what items
-   1-2 built; 3 pulls (not 5); item 3 (K15, V16) and the never-yielded item 4
+   1-2 built; 3 pulls (not 5); the rejected item 3 (V16, then K15) and the never-yielded item 4
    (K17, V18) are destroyed once. *)
 Definition C16_items3 : list (key * vobj) :=
   [(k_ 11 6, v_ 12 1); (k_ 13 7, v_ 14 2); (k_ 15 8, v_ 16 3); (k_ 17 5, v_ 18 4)].
@@ -750,7 +758,7 @@ Example C16_example_overflow_midway :
       n_call (cb w') = 3%N /\
       length (filter is_pull (log w')) = 3 /\
       log w' = [EvCall 1; EvDrop 11; EvDrop 4; EvCall 1; EvCall 1;
-                EvDrop 15; EvDrop 16; EvDrop 17; EvDrop 18]
+                EvDrop 16; EvDrop 15; EvDrop 17; EvDrop 18]
   | _ => False
   end.
 Proof. vm_compute. repeat split; reflexivity. Qed.
